@@ -284,6 +284,8 @@ func (ex *Exec) zero(t types.Type, addr uint64) Value {
 			return &StrV{}
 		case u.Kind() == types.UnsafePointer:
 			return &PtrV{}
+		case u.Info()&types.IsComplex != 0:
+			return &OpaqueV{Tag: "complex", S: "(0 + 0i)"}
 		case u.Kind() == types.UntypedNil:
 			return nil
 		}
@@ -818,6 +820,8 @@ func (ex *Exec) constValue(c *ssa.Const) Value {
 		case u.Info()&types.IsFloat != 0:
 			f, _ := constant.Float64Val(c.Value)
 			return fconst(floatWidth(u), f)
+		case u.Info()&types.IsComplex != 0:
+			return &OpaqueV{Tag: "complex", S: c.Value.String()}
 		case u.Info()&types.IsString != 0:
 			if c.Value.Kind() == constant.String {
 				return strConst(constant.StringVal(c.Value))
